@@ -541,10 +541,7 @@ class WriterThread(threading.Thread):
             saved_id = event.id_bytes
             event.created_at - 1
             if event.is_paramaterized_replaceable:
-                try:
-                    d_tag = [tag[1] for tag in event.tags if tag[0] == "d"][0]
-                except IndexError:
-                    d_tag = None
+                d_tag = get_d_tag(event)
             else:
                 d_tag = None
 
@@ -559,7 +556,7 @@ class WriterThread(threading.Thread):
                         continue
                     candidate = decode_event(get_event_data(txn, event_id))
                     if d_tag is not None:
-                        if not all(candidate.has_tag("d", d_tag)):
+                        if get_d_tag(candidate) != d_tag:
                             continue
                     self._delete_event(txn, candidate, log)
                     counter["count"] += 1
@@ -1190,6 +1187,19 @@ def decode_event(data: tuple) -> Event:
             sig=data[7].hex(),
         )
         return event
+
+
+def get_d_tag(event: Event) -> str:
+    """
+    Return the value of the first "d" tag
+    according to nip-33, [], [["d"]], and [["d", ""]] all mean ""
+    """
+    for tag in event.tags:
+        if tag[0] == "d":
+            if len(tag) > 1:
+                return tag[1]
+            break
+    return ""
 
 
 def get_event_data(txn, event_id: bytes):
